@@ -20,6 +20,11 @@ Sessions   : the same matrix on ONE handle that has already read the undamaged t
              are unchanged -- C14_history_independent: the outcome of a read depends only on the store at the time
              of the read -- so any state a handle carries between reads (a verified-files cache, cached manifests,
              a remembered metadata version) shows up as a concrete same-handle:... violation.
+Mid-call   : the store changes DURING a read: the damage is applied when the k-th storage operation on the target file
+             has finished, for every k the code under test performs in that call (a re-read of a file is a new slot).
+             The call must raise or return the answer of the table as it was; on a checksummed data file with
+             verification on, any other returned rows are unverified bytes (C14_no_check_use_gap: one storage
+             operation per data file, the bytes parsed are the bytes hashed).
 Oracle /   : implementation-only, independent of the model: for damage inside the property (absent, bytes no
 search       parser accepts, transient error that fired) on a file the call touched, the call must raise; when
              the damaged file was not touched the answer must equal the undamaged one; with verification on,
@@ -41,7 +46,7 @@ from harness.lib import coqbuild
 
 LEVEL = "proof"
 THEOREMS = ["C14_fail_closed", "C14_never_partial", "C14_not_empty", "C14_checksum", "C14_untouched",
-            "C14_row_count_metadata_only", "C14_history_independent", "C14_checksum_survives_history", "C14_healthy_ok",
+            "C14_row_count_metadata_only", "C14_history_independent", "C14_checksum_survives_history", "C14_no_check_use_gap", "C14_healthy_ok",
             "C14_fail_closed_full_refuted"]
 REQ = ["DS.Gen.GenRead", "DS.Model.Read"]
 KNOWN_KEY = "current-metadata-file-deleted-serves-previous-version"
@@ -55,7 +60,9 @@ MANIFEST_ENTRY = {
                   "compared with the real library on every reachable file x damage class x API x verify; "
                   "implementation-only oracles search for a read that returns although a touched file is damaged, "
                   "both on fresh handles and on a handle that has already read the undamaged table (same-handle sessions: "
-                  "read, damage, read again; C14_history_independent)",
+                  "read, damage, read again; C14_history_independent), on tables whose history contains deletes / rewrites "
+                  "(C14_checksum_survives_history) and with the damage applied DURING the call after each storage operation "
+                  "on the target file (C14_no_check_use_gap)",
     "level_note": "C14_fail_closed excludes one case, kept visible as C14_fail_closed_full + _refuted: the current "
                   "metadata file deleted while the pointer names it (refresh() recovers the previous version, as C10 "
                   "demands) -- known finding " + KNOWN_KEY + ". Hypothesis json_not_avro (bytes the JSON fallback "
@@ -445,13 +452,48 @@ class _FailingStream:
         return getattr(self.inner, name)
 
 
-class Instr:
-    """Wraps the storage calls of one Table handle: records (path, op, occurrence) and injects one transient fault."""
+class _NotifyClose:
+    """A stream proxy that reports when the library has finished with the stream (close / end of `with`)."""
 
-    def __init__(self, table, fault: Optional[Tuple[str, str, int, str]] = None):
+    def __init__(self, inner, on_close):
+        self._inner, self._on_close = inner, on_close
+
+    def __getattr__(self, name):
+        return getattr(self._inner, name)
+
+    def __enter__(self):
+        return self
+
+    def __exit__(self, *a):
+        self.close()
+        return False
+
+    def __iter__(self):
+        return iter(self._inner)
+
+    def close(self):
+        try:
+            self._inner.close()
+        finally:
+            cb, self._on_close = self._on_close, None
+            if cb:
+                cb()
+
+
+class Instr:
+    """Wraps the storage calls of one Table handle: records (path, op, occurrence), injects one transient fault, or
+    changes the store DURING the call: `mutation` = (path, k, apply) runs apply() as soon as the k-th storage
+    operation on `path` (0-based, any kind) has finished -- for a stream, when the library closes it or issues its
+    next storage operation, whichever comes first."""
+
+    def __init__(self, table, fault: Optional[Tuple[str, str, int, str]] = None, mutation: Optional[Tuple[str, int, Any]] = None):
         import threading
         self.table = table
         self.fault = fault          # (path, op, occurrence, mode) mode in {"call", "stream"}
+        self.mutation = mutation
+        self.mutated = False
+        self.pending = False
+        self.path_ops: Dict[str, int] = {}
         self.fired = False
         self.trace: List[Tuple[str, str, int]] = []
         self.counts: Dict[Tuple[str, str], int] = {}
@@ -476,19 +518,48 @@ class Instr:
         def wrapped(path, *a, **kw):
             rel = path.lstrip("/")
             with self.lock:
+                if self.pending:
+                    self._mutate()                  # a stream left open: the next storage operation ends it
                 occ = self.counts.get((rel, op), 0)
                 self.counts[(rel, op)] = occ + 1
                 self.trace.append((rel, op, occ))
+                nth = self.path_ops.get(rel, 0)
+                self.path_ops[rel] = nth + 1
+                due = self.mutation is not None and not self.mutated and self.mutation[0] == rel and self.mutation[1] == nth
                 hit = self.fault is not None and self.fault[:3] == (rel, op, occ)
                 if hit:
                     self.fired = True
             if hit and self.fault[3] == "call":
                 raise TransientIO(f"injected transient error on {name}({rel})")
-            res = fn(path, *a, **kw)
+            try:
+                res = fn(path, *a, **kw)
+            except BaseException:
+                if due:
+                    with self.lock:
+                        self._mutate()
+                raise
+            if due:
+                with self.lock:
+                    if name in ("open_file", "open_parquet_source"):
+                        self.pending = True
+                        res = _NotifyClose(res, self._mutate_locked)
+                    else:
+                        self._mutate()
             if hit and self.fault[3] == "stream":
                 return _FailingStream(res)
             return res
         return wrapped
+
+    def _mutate(self) -> None:
+        if not self.mutated:
+            self.mutated = True
+            self.pending = False
+            self.mutated_after = len(self.trace)
+            self.mutation[2]()
+
+    def _mutate_locked(self) -> None:
+        with self.lock:
+            self._mutate()
 
 
 def row_id(r: Dict[str, Any]) -> int:
@@ -831,11 +902,18 @@ def damages_for(inv: Inventory, path: str, tier: str, rng: random.Random) -> Lis
     return out
 
 
-def apply_damage(inv: Inventory, dmg: Dict[str, Any]) -> None:
+def apply_damage(inv: Inventory, dmg: Dict[str, Any], atomic: bool = False) -> None:
+    """atomic: replace the file by a new one (rename), so a stream that is already open keeps the old bytes --
+    the damage becomes visible to the NEXT storage operation, not to one in flight."""
     for p, b in dmg["writes"].items():
         full = os.path.join(inv.path, p)
         if b is None:
-            os.remove(full)
+            if os.path.exists(full):
+                os.remove(full)
+        elif atomic:
+            with open(full + ".dmg", "wb") as f:
+                f.write(b)
+            os.replace(full + ".dmg", full)
         else:
             with open(full, "wb") as f:
                 f.write(b)
@@ -1421,6 +1499,110 @@ def oracle_options(ctx, path: str) -> None:
     ctx.stats["option_oracle_calls"] = n
 
 
+MID_DAMAGES = ("delete", "swap-sibling", "truncate@1", "braces")
+
+
+def mid_call_damages(inv: "Inventory", p: str, rng: random.Random, tier: str) -> List[Dict[str, Any]]:
+    out = []
+    for d in damages_for(inv, p, "quick", rng):
+        if d["class"] == "transient":
+            continue
+        if d["name"] in MID_DAMAGES or d["name"].startswith("random:") or d.get("value_flip") or d.get("footer_flip") or (tier == "thorough" and d["class"] in ("truncate", "flip")):
+            out.append(d)
+    return out
+
+
+def run_mid_call(path: str, inv: "Inventory", p: str, dmg: Dict[str, Any], k: int, api: str, verify: bool):
+    """One read during which the store changes: dmg is applied when the k-th storage operation on p has finished."""
+    t = open_handle(path)
+    ins = Instr(t, None, mutation=(p, k, lambda: apply_damage(inv, dmg, atomic=True)))
+    try:
+        impl = run_api(t, api, verify)
+    finally:
+        ins.restore()
+        undo_damage(inv, dmg)
+    return impl, ins
+
+
+def judge_mid_call(inv: "Inventory", role: str, p: str, dmg: Dict[str, Any], api: str, verify: bool, impl: Dict[str, Any]) -> Optional[Tuple[str, str]]:
+    """The store changed while the call ran.  Implementation-only judgement: the call raises, or it returns exactly
+    the answer of the table as it was when the call began; for damage that every parser accepts (labelled, outside
+    the property) nothing is demanded -- except on a checksummed data file with verification on, where a returned
+    answer other than the original rows means unverified bytes were served."""
+    healthy = len(inv.rows) if api == "RowCount" else inv.rows
+    got = impl.get("count") if api == "RowCount" else impl.get("rows")
+    if impl.get("hung"):
+        return ("library-call-hung", impl["msg"])
+    if not impl["ok"] or got == healthy:
+        return None
+    new_bytes = dmg["writes"].get(p)
+    if role == "data" and verify and api != "RowCount" and inv.ever_checksummed.get(p) and new_bytes != inv.files[p]:
+        return ("checksum-not-detected", f"returned {got} (rows that were never verified) instead of CorruptDataError or the original rows {healthy}")
+    if dmg["class"] == "absent" or (dmg["class"] in ("truncate", "replace", "flip") and unparseable(role, new_bytes)):
+        if not (role == "meta" and dmg["class"] == "absent"):
+            return ("fail-open", f"returned {got} instead of raising or the original answer {healthy}")
+    return None
+
+
+def oracle_mid_call(ctx, path: str, shape: List[Any]) -> List[Dict[str, Any]]:
+    """Damage applied DURING a read call: for every reachable file, after each of its storage operations in that
+    call (the operations are counted on the code under test, so a second read of the same file is a new slot).
+    Returns the data-file cases for the model comparison."""
+    inv = make_table(path, shape, None)
+    n = fired = 0
+    for_model: List[Dict[str, Any]] = []
+    for api in APIS:
+        for verify in ((True, False) if api != "RowCount" else (True,)):
+            t = open_handle(path)
+            ins0 = Instr(t)
+            base = run_api(t, api, verify)
+            ins0.restore()
+            if not base["ok"]:
+                ctx.violation(f"healthy-table-misread:{api}", f"undamaged table: {api} gave {base}", {"shape": shape, "damage": "healthy", "api": api, "verify": verify, "role": "none"})
+                continue
+            ops = dict(ins0.path_ops)
+            for p, role in inv.reachable():
+                for dmg in mid_call_damages(inv, p, ctx.rng, ctx.tier):
+                    for k in range(ops.get(p, 0)):
+                        case = {"table": "mid-call", "shape": shape, "variant": None, "role": role,
+                                "index": [q for q, r_ in inv.reachable() if r_ == role].index(p), "damage": dmg["name"],
+                                "api": api, "verify": verify, "mid_call_after_op": k}
+                        CURRENT_CASE.clear()
+                        CURRENT_CASE.update(case)
+                        impl, ins = run_mid_call(path, inv, p, dmg, k, api, verify)
+                        n += 1
+                        ctx.count(1, ("mid-call", p, dmg["name"], k, api, verify))
+                        if not ins.mutated:
+                            continue
+                        fired += 1
+                        verdict = judge_mid_call(inv, role, p, dmg, api, verify, impl)
+                        if verdict:
+                            ctx.violation(f"mid-call:{verdict[0]}:{role}:{dmg['class']}:{api}",
+                                          f"{role} file {dmg['name']} applied after storage operation #{k} on that file, DURING {api}(verify={verify}): {verdict[1]}",
+                                          dict(case, got=impl, expect="mid-call"))
+                        if role == "data" and dmg["class"] != "swap":
+                            for_model.append({"case": case, "impl": impl, "trace": list(ins.trace), "k": k, "ops": ops.get(p, 0)})
+    ctx.stats["mid_call"] = {"calls": n, "damage_applied_during_call": fired}
+    # model side (C14_no_check_use_gap): a data file changed after its last storage operation of the call is read as
+    # it was -- outcome and trace are those of the unchanged store, with ONE operation per data file
+    mc = ModelCtx(inv)
+    recovered = recovered_by_scan(inv)
+    sel = [c for c in for_model if c["k"] == c["ops"] - 1]
+    exprs = [model_expr(mc, {"writes": {}}, recovered, c["case"]["api"], c["case"]["verify"])[0] for c in sel]
+    try:
+        got = coqbuild.coq_eval(REQ, exprs, preamble=preamble(mc), chunk=40)
+    except RuntimeError as e:
+        ctx.proof_problems.append("model evaluation failed (mid-call): " + str(e)[:600])
+        return for_model
+    bad = []
+    for c, g in zip(sel, got):
+        why = compare(mc, c["case"]["api"], c["impl"], c["trace"], parse_model(g))
+        if why:
+            bad.append(dict(c["case"], why=why))
+    ctx.correspondence("read_current_mid_call", len(sel), bad)
+    return for_model
+
+
 # ====================================================================================== driver
 def run(ctx) -> None:
     logging.disable(logging.CRITICAL)
@@ -1478,6 +1660,7 @@ def run(ctx) -> None:
     oracle_filtered(ctx, os.path.join(ctx.scratch, "tf"))
     oracle_fresh_handle(ctx, os.path.join(ctx.scratch, "th"))
     oracle_options(ctx, os.path.join(ctx.scratch, "to"))
+    oracle_mid_call(ctx, os.path.join(ctx.scratch, "tm"), [[2, 2], [3]])
     shrink(ctx)
 
 
@@ -1496,6 +1679,12 @@ def execute_case(case: Dict[str, Any], path: str) -> Optional[Tuple[Dict[str, An
     dmg = damage_by_name(inv, p, case["damage"])
     if dmg is None:
         return None
+    if case.get("mid_call_after_op") is not None:
+        impl, ins = run_mid_call(path, inv, p, dmg, case["mid_call_after_op"], case["api"], case["verify"])
+        if not ins.mutated:
+            return (dict(impl, not_reached=True), inv,
+                    f"{case['role']} file {p}: the call makes no storage operation #{case['mid_call_after_op']} on it (nothing to apply {dmg['name']} after)")
+        return impl, inv, f"{case['role']} file {p} {dmg['name']} applied after storage operation #{case['mid_call_after_op']} on it, during the call"
     held = None
     if case.get("session"):
         held = open_handle(path)
@@ -1525,6 +1714,13 @@ def case_fails(case: Dict[str, Any], impl: Dict[str, Any], inv: "Inventory") -> 
         return impl["ok"]               # "ok" = checksums were lost
     if case.get("expect") == "returns-in-time":
         return bool(impl.get("hung"))
+    if impl.get("not_reached"):
+        return False
+    if case.get("expect") == "mid-call":
+        files = [q for q, r in inv.reachable() if r == case["role"]]
+        p = files[min(case.get("index", 0), len(files) - 1)]
+        dmg = damage_by_name(inv, p, case["damage"])
+        return dmg is not None and judge_mid_call(inv, case["role"], p, dmg, case["api"], case["verify"], impl) is not None
     if case["damage"] == "healthy":
         return impl["ok"] if inv.broken else not impl["ok"]
     if case.get("expect") == "corrupt":
